@@ -94,7 +94,7 @@ class TRun(Run):
                 n0 = len(self.readings)
                 # the client closes the act: by complete, or by one of the other closing actions (the task is finished either way)
                 ckind = CLOSE_KINDS[I.path.choose(len(CLOSE_KINDS), "close-kind")]
-                self.log[-1]["kind"] = ckind
+                self.log[-1].update(kind=ckind, action=ckind, accepted=True, target="a1", target_state="Interrupt")
                 W.action(self.pid, a1[0]["tid"], ckind, {})
                 W.drain()
                 answered_at = (n0, len(self.readings))
@@ -206,6 +206,7 @@ def confirm(v, oracles=()):
         views = [dict(obs, procs=sn["procs"], messages=obs["messages"][: sn["nmsg"]], events=obs["events"][: sn["nevents"]]) for sn in obs["snapshots"] if sn["procs"]] + [obs]
         for view in views:
             rr = ReplayRun("timeout-replay", Cfg(oracles=oracles), v.prop, view, model)
+            rr.log = [e for e in d.get("log", []) if e.get("action")]
             for o in oracles:
                 f = getattr(rr, "q_" + o, None)
                 if f:
